@@ -19,10 +19,16 @@ def apply(ctx, W):
 
     # ---- function::build
     b = fw.fn("build")
-    # W5 (trusted stub): the doc line builds an ItemPath through FromIterator/Into, only used in an error message
+    # the doc line builds an ItemPath through FromIterator/Into, only used in an error message: that one expression goes
+    # through a trusted wrapper (R-std), the statement itself is verified against Attributes::doc's contract
     doc_let = fw.top_let(b, "doc")
-    rules.outline(ctx, fw, b, doc_let, doc_let, "build__doc", "function: &grammar::Function", "function", outs=["doc"], types=["Option<String>"],
-                  kind="try", mode="T", tags=("C17",), ensures=[("res is Ok ==> opt_string_view(res->Ok_0.0) == spec_doc(function.attributes.0@)", ("C17",))])
+    import re as _re
+    t_doc = fw.text(doc_let["init_span"])
+    m_doc = _re.search(r"ItemPath::from_iter\(\[\s*([\w.]+\.clone\(\))\.into\(\)\s*\]\)", t_doc)
+    if not m_doc:
+        raise rules.WeaveError("function::build: the doc path is no longer ItemPath::from_iter([<name>.clone().into()])")
+    a0 = doc_let["init_span"][0]
+    fw.replace(a0 + m_doc.start(), a0 + m_doc.end(), "crate::verif_prelude::v_item_path_single(%s)" % m_doc.group(1), "W9-R-std-path-single")
     fn, u = fn_into_verus(ctx, fw, "build", ret="res", tags=U, unit="semantic::function::build", requires=["reg_wf(type_registry)"], ensures=[
         ("res is Ok ==> fn_built(type_registry, scope@, is_vfunc, *function, res->Ok_0)", ("C04", "C05", "C10", "C16", "C17"), "fn-built"),
     ])
